@@ -204,7 +204,12 @@ Record set_spec (i : string) (t : task) (u : upd) (evs : list event) : Prop := {
   ss_epic_item : t_is_epic t = true -> u_state u = None ->
           fold_left (fun sc e => sc_step e sc) evs (t_state t, t_claimed t) = (t_state t, t_claimed t)
           /\ u_epic u = None;
-  ss_epic : fold_left (fun ep e => epic_step e ep) evs (t_epic t) = opt_default (t_epic t) (u_epic u) }.
+  ss_epic : fold_left (fun ep e => epic_step e ep) evs (t_epic t) = opt_default (t_epic t) (u_epic u);
+  ss_trans : validate_transition (t_state t)
+               (fold_left (fun sc e => sc_step e sc) evs (t_state t, t_claimed t)).1 = true }.
+
+Lemma validate_transition_refl s : validate_transition s s = true.
+Proof. unfold validate_transition. rewrite String.eqb_refl. reflexivity. Qed.
 
 Local Ltac inv_some H := injection H as <-.
 
@@ -271,6 +276,7 @@ Proof.
       subst nc. unfold claim_inv. destruct claim_set; cbn [fst snd]; exact Hci.
     + intros Hk Hn. rewrite Hstate in Hn. discriminate.
     + apply Hpre_ep. repeat constructor.
+    + rewrite Hpre_sc. cbn [fold_left sc_step fst snd]. destruct claim_set; exact Hvt.
   - (* no state key *)
     destruct (claim_set && negb (String.eqb claim_val ""))%bool eqn:Hc1'.
     + destruct (validate_transition (t_state t) "doing") eqn:Hvt; [|discriminate]. inv_some H.
@@ -280,6 +286,7 @@ Proof.
       * intros _ _ _. cbn zeta. rewrite Hpre_sc, Hcs. cbn. split; [reflexivity|]. apply claim_inv_doing. exact Hne.
       * intros Hk _. rewrite (Hepic_claim Hk) in Hcs. discriminate.
       * apply Hpre_ep. repeat constructor.
+      * rewrite Hpre_sc, Hcs. cbn. exact Hvt.
     + destruct (claim_set && String.eqb claim_val "")%bool eqn:Hc2'.
       * destruct (validate_claim_invariant (t_state t) "") eqn:Hci; [|discriminate]. inv_some H.
         apply andb_prop in Hc2' as [Hcs He]. apply eqb_true in He.
@@ -288,6 +295,7 @@ Proof.
         -- intros _ Hvs _. cbn zeta. rewrite <- (app_nil_r ev_claim), Hpre_sc, Hcs, He. cbn. split; [exact Hvs|exact Hci].
         -- intros Hk _. rewrite (Hepic_claim Hk) in Hcs. discriminate.
         -- rewrite <- (app_nil_r ev_claim). apply Hpre_ep. constructor.
+        -- rewrite <- (app_nil_r ev_claim), Hpre_sc, Hcs. cbn. apply validate_transition_refl.
       * inv_some H.
         assert (Hcs : claim_set = false).
         { destruct claim_set; [|done]. cbn in Hc1', Hc2'. destruct (String.eqb claim_val ""); discriminate. }
@@ -296,6 +304,7 @@ Proof.
         -- intros _ Hvs Hci. cbn zeta. rewrite <- (app_nil_r ev_claim), Hpre_sc, Hcs. cbn. split; assumption.
         -- intros Hk _. split; [|auto]. rewrite <- (app_nil_r ev_claim), Hpre_sc, Hcs. reflexivity.
         -- rewrite <- (app_nil_r ev_claim). apply Hpre_ep. constructor.
+        -- rewrite <- (app_nil_r ev_claim), Hpre_sc, Hcs. cbn. apply validate_transition_refl.
 Qed.
 
 (** * Finalisation does not touch what the invariant talks about *)
